@@ -27,6 +27,7 @@ import Aegean.Proofs.C03
 import Aegean.Proofs.C03Real
 import Aegean.Proofs.C03Gen
 import Aegean.Proofs.C03Box
+import Aegean.Proofs.C03Flags
 
 namespace Aegean.Properties.C03
 open Aegean.Model.C03 Aegean.Proofs.C03
@@ -312,6 +313,33 @@ theorem flags_documented_bits_refit (inp : Nat) (hin : inp < 128) (nf wf : Bool)
   · rw [if_neg hs]
     exact lt128_or h (show PRIORIZED < 128 by decide)
 
+/-! #### the same for the flag data-flow re-assembled from the regenerated source pieces
+(`Proofs/C03Flags.lean`: `gen_flag_values`, `gen_estimateIsFlag`, `gen_summitFlag`, `gen_fitIsFlag`,
+`gen_componentFlags`, `gen_refitFlags`, `gen_notFitMask`, `gen_blindIslandFlags` are the obligations
+"regenerated = model") -/
+
+/-- the constants of flags.py as they stand in the source are seven distinct single bits whose union
+    is 127: "the seven documented bits" -/
+theorem flag_constants_are_seven_bits :
+    [Gen.C03.flagFITERRSMALL, Gen.C03.flagFITERR, Gen.C03.flagFIXED2PSF, Gen.C03.flagFIXEDCIRCULAR,
+     Gen.C03.flagNOTFIT, Gen.C03.flagWCSERR, Gen.C03.flagPRIORIZED] = [1, 2, 4, 8, 16, 32, 64] := by
+  obtain ⟨h1, h2, h3, h4, h5, h6, h7⟩ := gen_flag_values
+  rw [h1, h2, h3, h4, h5, h6, h7]; rfl
+
+/-- **flags_documented_bits** for the regenerated blind flag flow: every component of every island -/
+theorem flags_documented_bits_island_gen (nn ms : Nat) (mxs : Option Nat) (nc : Nat) (eb su : Bool)
+    (wcs : List Bool) :
+    ∀ f ∈ blindIslandFlagsG nn ms mxs nc eb su wcs, Aegean.Spec.C03.flagsOK f = true := by
+  rw [gen_blindIslandFlags]; exact flags_documented_bits_island nn ms mxs nc eb su wcs
+
+/-- … and for the regenerated marking of refitted rows (input flag word < 128) -/
+theorem flags_documented_bits_refit_gen (inp : Nat) (hin : inp < 128) (nf wf : Bool) (stage : Nat) :
+    Aegean.Spec.C03.flagsOK (refitFlagsG inp nf wf stage) = true := by
+  rw [gen_refitFlags]; exact flags_documented_bits_refit inp hin nf wf stage
+
+/-- non-vacuity: a 5-pixel island with two summits and `max_summits = 1` -/
+example : blindIslandFlagsG 5 3 (some 1) 2 true true [] = [4, 20] := by decide
+
 /-- blind mode never sets PRIORIZED or FIXEDCIRCULAR; a refitted row always carries PRIORIZED -/
 theorem blind_never_priorized (nn ms : Nat) (mx en eb su wf : Bool) :
     blindFlags nn ms mx en eb su wf &&& (PRIORIZED ||| FIXEDCIRCULAR) = 0 := by
@@ -333,6 +361,11 @@ theorem refit_always_priorized (inp : Nat) (nf wf : Bool) (stage : Nat) :
 theorem unfit_all_masked (i : ErrIn) (h : (i.flags &&& (NOTFIT ||| FITERR)) ≠ 0) :
     errorsFixed i = allMasked ∧ errorsPinned i = allMasked := by
   simp [errorsFixed, errorsPinned, early, h]
+
+/-- the bits that make `fitting.errors` mask everything are, in the source, NOTFIT | FITERR -/
+theorem unfit_all_masked_gen (i : ErrIn) (h : (i.flags &&& notFitMaskG) ≠ 0) :
+    errorsFixed i = allMasked ∧ errorsPinned i = allMasked := by
+  rw [gen_notFitMask] at h; exact unfit_all_masked i h
 
 /-! ### 4. Error masking -/
 
